@@ -1,6 +1,6 @@
 (** Property C16 — the theorems the check counts as obligations.  Nothing but
     statements closed by [exact] and [Print Assumptions]. *)
-From HS Require Import Base.Prelude C16.Model C16.Lists C16.Policies C16.Store C16.Races C16.Seq C16.ModelTTL C16.SoftTTL C16.ModelMT C16.MT C16.ModelPC C16.PC.
+From HS Require Import Base.Prelude C16.Model C16.Lists C16.Policies C16.Store C16.Races C16.Seq C16.ModelTTL C16.SoftTTL C16.ModelMT C16.MT C16.ModelPC C16.PC C16.ModelWP.
 Local Open Scope Z_scope.
 
 (** Every one of the nine eviction policies keeps a duplicate-free tracked-key
@@ -140,3 +140,9 @@ Print Assumptions c16_pagecache_overlap_capacity_refuted.
 Theorem c16_pagecache_dirty_overwritten_refuted : ~ pagecache_dirty_statement.
 Proof. exact pagecache_load_overwrites_dirty_refuted. Qed.
 Print Assumptions c16_pagecache_dirty_overwritten_refuted.
+
+(** write_policies.WriteBack tracks exactly the keys written and not flushed since. *)
+Theorem c16_writeback_policy_tracks : forall m ops k,
+  In k (wdirty (wrun (WBack m) ops)) <-> pending_write k ops false = true.
+Proof. exact wb_tracks. Qed.
+Print Assumptions c16_writeback_policy_tracks.
